@@ -236,7 +236,7 @@ def cases(c):
         d = {'fn': 'LEVINSON', 'p': p, 'cplx': int(rng.integers(0, 2)), 'src': src,
              'cont': gen.pick(rng, ['array', 'array', 'list', 'intarray', 'intlist']), 'i': i}
         if src == 'sample':
-            d['kind'] = gen.pick(rng, ['noise', 'tones', 'ar', 'int', 'trend'])
+            d['kind'] = gen.pick(rng, ['noise', 'tones', 'ar', 'int', 'trend', 'sparse'])
             d['N'] = int(rng.integers(2 * p + 3, 4 * p + 64))
         else:
             d['prof'] = gen.pick(rng, PROFILES)
